@@ -329,7 +329,11 @@ def wrappers(ctx):
         return False
       hc = [dotted(c.func) or '' for c in U.calls_in(h.node)]
       return bool(hc) and all(c in ('open', 'io.open') or c.endswith('.read') or c.endswith('.close') for c in hc)
-    extra = [c for c in calls if c not in (target, 'open', 'io.open') and c not in ['%s.read' % n_ for n_ in fobj] and not _file_reader(c)]
+    # reading a file: open / read / close on the file object, spooling it into an in-memory buffer (io.BytesIO, shutil.copyfileobj, getvalue) -
+    # the exceptions these can raise are those of file access, which the property leaves to the caller
+    def _file_access(c):
+      return c in ('open', 'io.open', 'io.BytesIO', 'shutil.copyfileobj') or (c is not None and c.split('.')[-1] in ('read', 'close', 'getvalue', 'readinto', 'seek') and '.' in c)
+    extra = [c for c in calls if c != target and not _file_access(c) and not _file_reader(c)]
     raises = [n for n in ast.walk(fi.node) if isinstance(n, ast.Raise)]
     ok = target in calls and not extra and not raises
     ctx.ob('ESC/wrapper', fi, fi.node, ok, '%s only reads the file and delegates to %s' % (name, target) if ok else
